@@ -302,7 +302,31 @@ def rule_r2(repo):
         if not r.ok or ' '.join(want_sub) not in joined:
             rr.fail('generate_bufr_message:registration', gen.where, 'event order is [%s]; expected ... %s ... (every cached table group is dropped: each was built '
                     'without the entries just defined)' % (joined, ' '.join(want_sub)))
-    rr.require_floor(7)
+    # a decoder that compiles templates: what it compiled before the definitions arrived was built from the old tables and must not
+    # be used for the messages that follow (however that is achieved: cache cleared, manager replaced, key extended)
+    msgs, stream = c11.scenario()
+    sc = c11.Scanner(repo, msgs, stream)
+
+    def mk():
+        mgr = Obj('CompiledTemplateManager', {'cache': {'KEY-BEFORE': 'COMPILED-BEFORE-THE-DEFINITIONS'}, 'cache_max': 5, 'template_compiler': Obj('TemplateCompiler', {})})
+        return {'decoder': Obj('DecoderStub', {'compiled_template_manager': mgr}), 's': stream, 'info_only': False, 'continue_on_error': True, 'filter_expr': None,
+                'args': (), 'kwargs': {}}
+    res = sc.run_function(gen, mk)
+    rr.instance('templates compiled before a definition message are not used after it')
+    for r in res:
+        seen_defs = False
+        for e in r.events:
+            if e[0] == 'add_extra_entries':
+                seen_defs = True
+            elif e[0] == 'compiled_cache' and seen_defs:
+                if 'COMPILED-BEFORE-THE-DEFINITIONS' in repr(e[2]):
+                    rr.fail('generate_bufr_message:compiled-templates', gen.where, 'the message at octet %d, which follows the table definitions, is decoded by a decoder whose '
+                            'compiled-template cache still holds %s: a template compiled from the earlier definitions (widths, scales, reference values and '
+                            'sequence members are baked into it) is reused, because neither part of the cache key changes when definitions arrive' % (e[1], e[2]))
+                break
+        if not seen_defs:
+            raise AnalysisError('the scripted stream did not reach the definition message')
+    rr.require_floor(8)
     return rr
 
 
